@@ -32,12 +32,23 @@ RULE = ('one case = one public call (estimator function or analyzer attribute) r
         'for all, dict for the first + None} x event order {build both then read B,A | A,B | read each before the next is built, re-read at the '
         'end}: each read must be the reader\'s OWN input\'s grid; a failure under one shared caller dict that disappears with an equal dict each '
         'is the recorded finding, everything else a violation. '
+        '(6) session 3: (a) a precomputed transform Sk= handed to periodogram / periodogram_csd / get_spectra / CoherenceAnalyzer(periodogram_csd): same length, zero-padded '
+        '(both parities), truncated x N=/NFFT= absent / equal / different x sides x 1-d/2-d/3-d x complex64/complex128, tone on a bin of the SUPPLIED transform; '
+        '(b) every site x every representation of the data (int16/int32/int64/uint8/float32/complex64/Fortran/strided/read-only/big-endian/extra leading dimension); '
+        '(c) every site in a process history: the call, the same entry point and get_freqs with other rates / lengths, every result handed out (frequency vectors too) '
+        'overwritten in place, the call again on fresh inputs / a NEW analyzer; (d) the optional arguments of the Welch / cache sites (n_overlap absent / 0 / N-1, '
+        'window absent / array / list / float32 / function, prefer_speed_over_memory, scale_by_freq, data shorter than NFFT, explicit Fs in the method dict vs another '
+        'series rate in s/ms/us) and bands with explicit 0 / None, edges on a bin and 1 ulp below / above it on grids that are exact in binary64, ub on / above Nyquist. '
+        'A call of the new families that raises returns no frequency vector and is not judged (counted in the stats). '
         'distinct = distinct protocol line (site, Fs, N, band); non-trivial = N >= 3')
 ASSUMPTIONS = ['Fs > 0 finite; N >= 2; the frequency vector is compared with the exact rational grid at 4 ulp per entry',
                'np.pi is represented in the exact runs by a 40-digit rational (theorems hold for any value of pi)',
                'mlab.psd/csd frequency vector = k*Fs/NFFT (contract, monitored: the Welch paths are compared with the true grid by the oracle on every run)',
                'analyzer cases use sampling intervals whose rate 1e12/dt_ps is an exactly representable double, or sampling_rate= given directly']
-TRUSTED_EXTRA = ['harness/translate_c05.py: AST -> GridExpr for each site (echoed in the evidence); which expression of a function is "the" frequency vector is fixed there',
+TRUSTED_EXTRA = ['harness/translate_c05.py gen_lens: symbolic execution of the estimators up to the statement that builds the grid (which assignments / tests / calls are understood is '
+                 'listed in its header; anything else becomes .bad and the theorem stops checking) -> Generated/GridLens.lean; that fft(x, n=L) returns L points and that reshape / rollaxis '
+                 'of the forms recognised keep the last axis is trusted numpy semantics, monitored by the `gridx` correspondence',
+                 'harness/translate_c05.py: AST -> GridExpr for each site (echoed in the evidence); which expression of a function is "the" frequency vector is fixed there',
                  'harness/translate_c05.py gen_methods: what each analyzer constructor stores in self.method (dict display for None, the caller\'s object or a copy, Fs fill) -> Generated/Methods.lean; '
                  'the Fs reads/writes of the frequency getters in Nitime/Model/C05Hist.lean (Two.step: freq, cpsd) are transcribed by hand and monitored by the `two` correspondence',
                  'Nitime/Model/C05Hist.lean Hist: getters allocate their result and never write into an existing array (the intended behaviour; an implementation that does is reported by the `hist` correspondence and the oracle)',
@@ -109,17 +120,76 @@ def data_for(m):
             x = np.vstack([np.cos(ph + 0.2 + 0.7 * c) for c in range(nch)])
     elif m.get('complex'):
         x = x + 1j * r.randn(nch, n)
-    return x
+    return data_variant(x, m.get('dvar'))
+
+
+DVARS = ('int16', 'int32', 'int64', 'uint8', 'float32', 'complex64', 'F', 'strided', 'readonly', 'bigendian', '3d')
+
+
+def data_variant(x, kind):
+    """the same recording in another representation (harness/histories.dtype_family); the frequency axis of a result
+    does not depend on the sample values, so the expectation is unchanged.  '3d': an extra leading dimension."""
+    if not kind:
+        return x
+    if kind == '3d':
+        return np.array([x, 2.0 * x])
+    import histories
+    v = histories.dtype_family(x, kinds=(kind,))
+    if not v:
+        raise NotApplicable(kind)
+    return v[0][1]
+
+
+class NotApplicable(Exception):
+    pass
 
 
 def mk_ts(m, data):
     import nitime.timeseries as ts
+    o = m.get('opts') or {}
+    if o.get('series_interval') is not None:       # an explicit 'Fs' in the method dict (m['Fs']) overrides this rate
+        return ts.TimeSeries(data, sampling_interval=o['series_interval'], time_unit=m['unit'])
+    if o.get('series_fs') is not None:
+        return ts.TimeSeries(data, sampling_rate=x2f(o['series_fs']), time_unit=m.get('unit', 's'))
     if m.get('interval') is not None:
         return ts.TimeSeries(data, sampling_interval=m['interval'], time_unit=m['unit'])
     return ts.TimeSeries(data, sampling_rate=x2f(m['Fs']), time_unit=m.get('unit', 's'))
 
 
+def welch_method(m, base):
+    """the method dict of a Welch / cache call with the optional entries of m['opts']: n_overlap absent / 0 / other,
+    window absent / array / list / float32 array / function, an explicit 'Fs' that differs from the series' own rate"""
+    o = m.get('opts') or {}
+    d = dict(base)
+    N = m['N']
+    if 'nov' in o:
+        if o['nov'] is None:
+            d.pop('n_overlap', None)
+        else:
+            d['n_overlap'] = o['nov']
+    w = o.get('window')
+    if w:
+        vals = np.hamming(N)
+        d['window'] = {'array': vals, 'list': [float(v) for v in vals], 'float32': vals.astype(np.float32),
+                       'intarr': np.arange(1, N + 1), 'func': (lambda x, h=vals: h * x)}[w]
+    if o.get('fs_dict'):
+        d['Fs'] = x2f(m['Fs'])
+    return d
+
+
+def cache_kw(m):
+    o = m.get('opts') or {}
+    kw = {}
+    if 'psm' in o:
+        kw['prefer_speed_over_memory'] = o['psm']
+    if 'sbf' in o:
+        kw['scale_by_freq'] = o['sbf']
+    return kw
+
+
 def fs_true(m):
+    if (m.get('opts') or {}).get('fs_dict'):
+        return Fr(x2f(m['Fs']))
     if m.get('interval') is not None:
         return Fr(10**12) / (Fr(m['interval']) * UNIT_PS[m['unit']])
     return Fr(x2f(m['Fs']))
@@ -176,6 +246,10 @@ def run_call(m):
     """returns (f vector or index list, spectrum or None) from the REAL implementation"""
     if m.get('call') == 'two':
         return run_two(m)
+    if m.get('call') == 'sk':
+        return run_sk(m)
+    if m.get('sandwich') and not m.get('_inner'):
+        return run_sandwich(m)
     import nitime.algorithms as tsa
     import nitime.utils as utils
     import nitime.analysis as an
@@ -188,22 +262,23 @@ def run_call(m):
     lb = 0 if lb is None else lb
     if name.startswith('periodogram/'):
         f, p = tsa.periodogram(x, Fs=Fs, N=nfft, sides=m['sides'])
-        return f, p[0]
+        return f, p.reshape(-1, p.shape[-1])[0]
     if name.startswith('periodogram_csd/'):
         f, p = tsa.periodogram_csd(x, Fs=Fs, NFFT=nfft, sides=m['sides'])
         return f, np.abs(p[0, 0])
     if name.startswith('multi_taper_psd/'):
-        f, p, _ = tsa.multi_taper_psd(x, Fs=Fs, NFFT=nfft, sides=m['sides'], jackknife=False, adaptive=False, NW=m.get('NW', 1))
-        return f, p[0]
+        f, p, _ = tsa.multi_taper_psd(x, Fs=Fs, NFFT=nfft, sides=m['sides'], jackknife=bool(m.get('jackknife')), adaptive=bool(m.get('adaptive')),
+                                      low_bias=m.get('low_bias', True), NW=m.get('NW', 1))
+        return f, p.reshape(-1, p.shape[-1])[0]
     if name.startswith('multi_taper_csd/'):
-        f, p = tsa.multi_taper_csd(x, Fs=Fs, NFFT=nfft, sides=m['sides'], adaptive=False, NW=m.get('NW', 1))
+        f, p = tsa.multi_taper_csd(x, Fs=Fs, NFFT=nfft, sides=m['sides'], adaptive=bool(m.get('adaptive')), low_bias=m.get('low_bias', True), NW=m.get('NW', 1))
         return f, np.abs(p[0, 0])
     if name == 'get_freqs':
         return utils.get_freqs(Fs, N), None
     if name.startswith('get_spectra/'):
         parts = name.split('/')
         if parts[1] == 'welch':
-            f, p = tsa.get_spectra(x, {'this_method': 'welch', 'Fs': Fs, 'NFFT': N, 'n_overlap': N // 2})
+            f, p = tsa.get_spectra(x, welch_method(m, {'this_method': 'welch', 'Fs': Fs, 'NFFT': N, 'n_overlap': N // 2}))
             return f, np.abs(p[0, 0])
         md = {'this_method': parts[1], 'Fs': Fs, 'sides': parts[2]}
         if nfft is not None:
@@ -211,10 +286,11 @@ def run_call(m):
         f, p = tsa.get_spectra(x, md)
         return f, None
     if name == 'cache_fft':
-        f, c = tsa.cache_fft(x, [(0, 1)], lb=lb, ub=ub, method={'this_method': 'welch', 'NFFT': N, 'Fs': Fs, 'n_overlap': N // 2})
+        f, c = tsa.cache_fft(x, [(0, 1)], lb=lb, ub=ub, method=welch_method(m, {'this_method': 'welch', 'NFFT': N, 'Fs': Fs, 'n_overlap': N // 2}),
+                             **cache_kw(m))
         return f, None, int(np.asarray(c['FFT_slices'][0]).shape[-1])
     if name == 'correlation_spectrum':
-        f, c = tsa.correlation_spectrum(x[0], x[1], Fs=Fs)
+        f, c = tsa.correlation_spectrum(x[0], x[1], Fs=Fs, norm=bool(m['dseed'] % 2))
         return f, None
     # ---- analyzers
     if m.get('rt'):
@@ -237,18 +313,20 @@ def an_build(name, m):
         # flat-spectrum probe: an impulse; the bins that survive are read off the FFT of the output
         d = np.zeros((1, N))
         d[0, 1] = 1.0
+        if m.get('dvar'):
+            d = data_variant(200.0 * d, m['dvar'])
         return an.FilterAnalyzer(mk_ts(m, d), lb=lb, ub=ub)
     T = mk_ts(m, data_for(m))
     if name == 'CoherenceAnalyzer.frequencies/welch':
-        return an.CoherenceAnalyzer(T, method={'this_method': 'welch', 'NFFT': N, 'n_overlap': N // 2})
+        return an.CoherenceAnalyzer(T, method=welch_method(m, {'this_method': 'welch', 'NFFT': N, 'n_overlap': N // 2}))
     if name.startswith('CoherenceAnalyzer.frequencies/'):
         return an.CoherenceAnalyzer(T, method={'this_method': name.split('/')[1]})
     if name == 'MTCoherenceAnalyzer.frequencies':
         return an.MTCoherenceAnalyzer(T)
     if name == 'SparseCoherenceAnalyzer.frequencies':
-        return an.SparseCoherenceAnalyzer(T, ij=[(0, 1)], method={'this_method': 'welch', 'NFFT': N}, lb=lb, ub=ub)
+        return an.SparseCoherenceAnalyzer(T, ij=[(0, 1)], method=welch_method(m, {'this_method': 'welch', 'NFFT': N}), lb=lb, ub=ub, **cache_kw(m))
     if name == 'SeedCoherenceAnalyzer.frequencies':
-        return an.SeedCoherenceAnalyzer(T, T, method={'NFFT': N}, lb=lb, ub=ub)
+        return an.SeedCoherenceAnalyzer(T, T, method=welch_method(m, {'NFFT': N}), lb=lb, ub=ub, **cache_kw(m))
     if name in ('SpectralAnalyzer.psd', 'SpectralAnalyzer.cpsd'):
         if m.get('retarget'):
             # the analyzer is first built on ANOTHER series (3x the rate) and then pointed at T: the frequency
@@ -260,7 +338,7 @@ def an_build(name, m):
             A.method.update({'NFFT': N, 'n_overlap': N // 2})
             A.set_input(T)
             return A
-        return an.SpectralAnalyzer(T, method={'NFFT': N, 'n_overlap': N // 2})
+        return an.SpectralAnalyzer(T, method=welch_method(m, {'NFFT': N, 'n_overlap': N // 2}))
     if name.startswith('SpectralAnalyzer.'):
         return an.SpectralAnalyzer(T)
     if name == 'GrangerAnalyzer.frequencies':
@@ -593,6 +671,8 @@ def judge_two(m, res):
 def model_line(m):
     if m.get('call') == 'two':
         return two_line(m)
+    if m.get('call') == 'sk':
+        return sk_line(m)
     if m.get('hist'):
         mm = {k: v for k, v in m.items() if k != 'hist'}
         return 'C05 hist %s %s' % (m['hist'].get('seen') or m['hist']['events'], model_line(mm)[4:])
@@ -647,6 +727,17 @@ def judge(m, res):
     """independent oracle on one call: list of (key, what)"""
     if m.get('call') == 'two':
         return judge_two(m, res)
+    if m.get('call') == 'sk':
+        return judge_sk(m, res)
+    if m.get('sandwich') and not isinstance(res, str):
+        mm = {k: v for k, v in m.items() if k != 'sandwich'}
+        pre = '%s/recall' % m['call']
+        out = judge_one(mm, res, pre)
+        if m['sandwich'].get('same') is False:
+            out.append((pre + '/second-call-differs', '%s called, then called with other rates / lengths (and get_freqs), every result handed out overwritten in place, '
+                        'then called again with the first arguments: the frequency vector read %s… the first time and reads %s… now' % (
+                            m['call'], m['sandwich'].get('first'), [float(v) for v in np.asarray(res[0], dtype=float).reshape(-1)[:4]] if not isinstance(res[0], list) else res[0][:4])))
+        return out
     if m.get('hist') and not isinstance(res, str):
         # every vector handed out during the history must show the true grid AT THE END (the last one is res[0] itself)
         pre = hist_label(m)
@@ -912,6 +1003,11 @@ def make_case(m):
         c = _C(model_line(m), impl, 'two-analyzers/' + m['mode'], cmp=cmp_parts('one'), meta=m, nontrivial=True)
         c._res = res
         return c
+    if m.get('call') == 'sk':
+        impl = res if isinstance(res, str) else flist(np.asarray(res[0], dtype=float).reshape(-1))
+        c = _C(model_line(m), impl, 'Sk/%s/%s' % (m['est'], m['via']), cmp=cmp_grid(False), meta=m, nontrivial=True)
+        c._res = res
+        return c
     kind = CALLS[m['call']][1]
     if m.get('hist'):
         if isinstance(res, str):
@@ -928,7 +1024,8 @@ def make_case(m):
         impl = ilist(res[0])
     else:
         impl = flist(np.asarray(res[0], dtype=float).reshape(-1))
-    c = _C(model_line(m), impl, m['call'] + ('/retarget' if m.get('rt') else '/' + parity(m)), cmp=cmp_grid(kind == 'shift') if kind != 'keep' else None,
+    c = _C(model_line(m), impl, m['call'] + ('/retarget' if m.get('rt') else '/recall' if m.get('sandwich') else '/dtype' if m.get('dvar') else
+                                              '/options' if m.get('opts') else '/' + parity(m)), cmp=cmp_grid(kind == 'shift') if kind != 'keep' else None,
              meta=m, nontrivial=m['N'] >= 3)
     c._res = res
     return c
@@ -1054,6 +1151,337 @@ def gen_two(rng, tier, mode, classes, pattern, idx):
     return {'call': 'two', 'mode': mode, 'N': N, 'n': max(a['n'] for a in ans), 'ans': ans, 'events': ev}
 
 
+# ------------------------------------------------------------------ a precomputed transform `Sk=` (any length)
+SK_VIA = ('func', 'get_spectra', 'CoherenceAnalyzer')
+
+
+def sk_side(m):
+    return 'twosided' if m['sides'] == 'twosided' else 'onesided'        # the data are real: 'default' is one-sided
+
+
+def sk_site(m):
+    if m['via'] == 'func':
+        return '%s_%s' % (m['est'], sk_side(m))
+    return 'get_spectra_periodogram_csd_%s' % sk_side(m)
+
+
+def sk_data(m):
+    """real rows holding a tone on bin k0 of an L-point transform (+ a little noise), n samples; dims 1 / 2 / 3"""
+    r = np.random.RandomState(m['dseed'])
+    n, L, nch = m['n'], m['L'], m.get('nch', 2)
+    t = np.arange(n)
+    x = np.vstack([np.cos(2 * np.pi * m['k0'] * t / L + 0.4 + 0.5 * c) + 0.01 * r.randn(n) for c in range(nch)])
+    if m['dims'] == 1:
+        x = x[0]
+    elif m['dims'] == 3:
+        x = np.array([x, 0.5 * x])
+    return data_variant(x, m.get('dvar'))
+
+
+def run_sk(m):
+    """the estimator is handed Sk = fft(s, n=L), L = m['L'] (equal to, larger or smaller than the number of samples),
+    with or without the N= / NFFT= argument; returns (f, one auto-spectrum, number of spectral values)"""
+    import nitime.algorithms as tsa
+    import nitime.analysis as an
+    s_ = sk_data(m)
+    Sk = np.fft.fft(np.asarray(s_, dtype=float), n=m['L']).astype(m.get('sk_dtype', 'complex128'))
+    Fs = x2f(m['Fs'])
+    if m['via'] == 'func' and m['est'] == 'periodogram':
+        f, p = tsa.periodogram(s_, Fs=Fs, Sk=Sk, N=m.get('NFFT'), sides=m['sides'], normalize=m.get('normalize', True))
+        return f, p.reshape(-1, p.shape[-1])[0], int(p.shape[-1])
+    if m['via'] == 'func':
+        f, p = tsa.periodogram_csd(s_, Fs=Fs, Sk=Sk, NFFT=m.get('NFFT'), sides=m['sides'], normalize=m.get('normalize', True))
+        return f, np.abs(p[0, 0]), int(p.shape[-1])
+    if m['via'] == 'get_spectra':
+        md = {'this_method': 'periodogram_csd', 'Fs': Fs, 'Sk': Sk}
+        if m.get('NFFT') is not None:
+            md['NFFT'] = m['NFFT']
+        if m['sides'] != 'default':
+            md['sides'] = m['sides']
+        f, p = tsa.get_spectra(s_, md)
+        return f, np.abs(p[0, 0]), int(p.shape[-1])
+    md = {'this_method': 'periodogram_csd', 'Sk': Sk}
+    if m.get('NFFT') is not None:
+        md['NFFT'] = m['NFFT']
+    A = an.CoherenceAnalyzer(mk_ts(m, s_), method=md)
+    f = A.frequencies
+    return f, np.abs(np.asarray(A.spectrum)[0, 0]), int(np.asarray(A.coherence).shape[-1])
+
+
+def sk_line(m):
+    return 'C05 gridx %s %s %s %d %s %d' % (sk_site(m), m['est'], m['Fs'], m['n'], 'none' if m.get('NFFT') is None else m['NFFT'], m['L'])
+
+
+def judge_sk(m, res):
+    """the transform actually used is the supplied one: L points, whatever n and NFFT say"""
+    pre = 'Sk/%s/%s/%s' % (m['est'] if m['via'] == 'func' else m['via'], sk_side(m),
+                           'same-length' if m['L'] == m['n'] else ('zero-padded' if m['L'] > m['n'] else 'truncated'))
+    if isinstance(res, str):
+        return []
+    f, spec, nvals = res
+    L, Fs = m['L'], fs_true(m)
+    one = sk_side(m) == 'onesided'
+    want = [Fr(k) * Fs / L for k in range(L // 2 + 1 if one else L)]
+    fl = [float(v) for v in np.asarray(f, dtype=float).reshape(-1)]
+    desc = '%s(Sk = fft(s, n=%d), %d samples, %s=%s, Fs=%s, sides=%s, %d-d, via %s)' % (
+        m['est'], L, m['n'], 'N' if m['est'] == 'periodogram' else 'NFFT', m.get('NFFT'), fs_true(m), m['sides'], m['dims'], m['via'])
+    out = []
+    if len(fl) != len(want):
+        out.append((pre + '/length', '%s returns %d frequencies %s…, the %d-point transform it was given has %d bins: %s…' % (
+            desc, len(fl), fl[:4], L, len(want), [float(q) for q in want[:4]])))
+    elif not close4(fl, want):
+        i = [j for j, (a, q) in enumerate(zip(fl, want)) if not math.isfinite(a) or abs(Fr(a) - q) > Fr(4 * ulp(max(abs(a), abs(float(q)))))][0]
+        out.append((pre + '/grid', '%s: entry %d is %r, bin %d of the %d-point transform is at %r Hz' % (desc, i, fl[i], i, L, float(want[i]))))
+    if nvals != len(fl):
+        out.append((pre + '/values-vs-frequencies', '%s returns %d spectral values for %d frequencies' % (desc, nvals, len(fl))))
+    # the tone: where the L-point DFT of the first row peaks (by numpy, not nitime) is where the reported axis must put it
+    x0 = np.asarray(sk_data(m), dtype=float).reshape(-1, m['n'])[0]
+    X = np.abs(np.fft.fft(x0, n=L))
+    kpk = int(np.argmax(X[:L // 2 + 1]))
+    sp = np.abs(np.asarray(spec, dtype=float)).reshape(-1)
+    if len(sp) == len(fl) and len(fl) and 0 < kpk < (L + 1) // 2:
+        j = int(np.argmax(sp))
+        targets = [Fr(kpk) * Fs / L] + ([] if one else [Fr(L - kpk) * Fs / L])
+        if not math.isfinite(fl[j]) or not any(abs(Fr(fl[j]) - t) <= Fr(4 * ulp(max(abs(fl[j]), abs(float(t))))) for t in targets):
+            out.append((pre + '/peak', '%s: the tone is on bin %d of the %d-point transform (%r Hz) but the spectrum peaks at the reported frequency %r Hz' % (
+                desc, kpk, L, float(targets[0]), fl[j])))
+    return out
+
+
+def gen_sk(rng, tier, idx):
+    est = ['periodogram', 'periodogram_csd'][idx % 2]
+    via = 'func' if est == 'periodogram' else SK_VIA[(idx // 2) % 3]
+    n = rng.randint(12, 64 if tier == 'thorough' else 40)
+    n = (n | 1) if (idx // 6) % 2 else (n & ~1)
+    lm = (idx // 2) % 4                    # same length / zero-padded other parity / zero-padded same parity / truncated
+    L = {0: n, 1: n + rng.choice([1, 3, 9, 27]), 2: n + rng.choice([2, 6, 28, 2 * n]), 3: n - rng.choice([1, 2, 3, 4])}[lm]
+    nm = (idx // 8) % 3                    # N= / NFFT= absent, equal to L, different from L
+    nfft = [None, L, rng.choice([n, L + 2, max(4, L - 3)])][nm]
+    if nfft == L and nm == 2:
+        nfft = L + 5
+    sides = ['default', 'onesided', 'twosided', 'default'][(idx // 3) % 4]
+    if via == 'CoherenceAnalyzer':
+        sides = 'default'
+    dims = 2
+    if via == 'func':
+        dims = [2, 3, 2, 1][(idx // 4) % 4] if est == 'periodogram' else [2, 3][(idx // 4) % 2]
+    m = {'call': 'sk', 'est': est, 'via': via, 'n': n, 'L': L, 'N': L, 'NFFT': nfft, 'sides': sides, 'dims': dims,
+         'dseed': rng.randint(0, 10**6), 'nch': [2, 1, 3][idx % 3] if dims > 1 else 1,
+         'k0': rng.randint(2, max(2, (L - 1) // 2 - 1)), 'sk_dtype': 'complex64' if idx % 7 == 3 else 'complex128'}
+    if via == 'CoherenceAnalyzer':
+        u, dt, rate = rng.choice([iv for iv in INTERVALS if iv[0] == ['s', 'ms', 'us'][idx % 3]])
+        m.update(unit=u, interval=dt, Fs=f2x(float(rate)), nch=2)
+    else:
+        m['Fs'] = f2x(float(rng.choice(FS_VALUES)))
+    if via == 'func' and (idx // 2) % 3 == 1:
+        m['normalize'] = False
+    if idx % 5 == 4:
+        m['dvar'] = rng.choice(['float32', 'int16', 'strided', 'readonly', 'F'] if dims > 1 else ['float32', 'int16', 'strided', 'readonly'])
+    return m
+
+
+# ------------------------------------------------------------------ process histories around a call
+def run_sandwich(m):
+    """the call of m; then the same entry point (and utils.get_freqs) with OTHER rates / lengths, and everything handed
+    out so far -- frequency vectors included -- overwritten in place; then the call of m again, on fresh inputs / a NEW
+    analyzer object.  Returned: the second result (judged like any call); m['sandwich']['same'] records whether the
+    second frequency vector equals what the first call returned."""
+    import histories
+    import nitime.utils as utils
+    inner = dict(m, _inner=True)
+    r1 = run_call(inner)
+    snap1 = snapshot(r1[0])
+    handed = [r1]
+    for pm in m['sandwich']['perturb']:
+        try:
+            handed.append(run_call(dict(pm, _inner=True)))
+            handed.append(utils.get_freqs(x2f(pm['Fs']), pm['N']))
+        except Exception:  # noqa -- the perturbation only has to disturb
+            pass
+    for h in handed:
+        histories.scribble(h)
+    r2 = run_call(inner)
+    m['sandwich']['same'] = bool(same_vec(snap1, snapshot(r2[0])))
+    m['sandwich']['first'] = [float(v) for v in (snap1[:4] if not isinstance(snap1, list) else snap1[:4])]
+    return r2
+
+
+def gen_sandwich(rng, name, tier, idx):
+    m = gen_meta(rng, name, tier, idx)
+    m.pop('retarget', None)
+    if name in BANDED and m.get('lb') is not None and m.get('ub') is not None and x2f(m['lb']) > x2f(m['ub']):
+        m['lb'], m['ub'] = m['ub'], m['lb']
+    per = []
+    for j in range(2):
+        pm = gen_meta(rng, name, tier, idx + 1 + j)
+        for k in ('retarget', 'k0', 'centroid'):
+            pm.pop(k, None)
+        if x2f(pm['Fs']) == x2f(m['Fs']):
+            pm['Fs'] = f2x(x2f(m['Fs']) * 3.0)
+            pm.pop('interval', None)
+            pm.setdefault('unit', 's')
+        if name in BANDED and pm.get('lb') is not None and pm.get('ub') is not None and x2f(pm['lb']) > x2f(pm['ub']):
+            pm['lb'], pm['ub'] = pm['ub'], pm['lb']
+        per.append(pm)
+    m['sandwich'] = {'perturb': per}
+    return m
+
+
+# ------------------------------------------------------------------ the option lattice of the Welch / cache sites, bands at +-1 ulp
+LATTICE_SITES = ('cache_fft', 'SparseCoherenceAnalyzer.frequencies', 'SeedCoherenceAnalyzer.frequencies', 'get_spectra/welch',
+                 'CoherenceAnalyzer.frequencies/welch', 'SpectralAnalyzer.psd', 'SpectralAnalyzer.cpsd')
+EXACT_RATES = [1.0, 2.0, 8.0, 0.5, 1024.0, 250.0, 1000.0, 125.0]     # k*Fs/N is exact in binary64 for N a power of two
+
+
+def gen_lattice(rng, name, tier, idx):
+    """optional arguments, alone and combined: n_overlap absent / 0 / N-1, window absent / array / list / float32 / function,
+    prefer_speed_over_memory, scale_by_freq, data shorter than NFFT, an explicit Fs in the method dict that differs from
+    the series' own rate (in s / ms / us); bands: explicit lb=0 / ub=None, edges on a bin and 1 ulp below / above it
+    (grids that are exact in binary64), ub above Nyquist"""
+    analyzer = name in ANALYZER
+    N = rng.choice([8, 16, 32, 64]) if (idx // 2) % 3 else rng.choice([5, 7, 9, 12, 15, 20])
+    exact = N in (8, 16, 32, 64)
+    m = {'call': name, 'dseed': rng.randint(0, 10**6), 'N': N, 'n': 4 * N + rng.randint(0, 7)}
+    o = {}
+    o['nov'] = [None, 0, N - 1, N // 2][idx % 4]
+    if name == 'CoherenceAnalyzer.frequencies/welch' and o['nov'] is None:
+        N = m['N'] = 64                                   # the constructor's default n_overlap (32) needs NFFT > 32
+        m['n'] = 4 * N + rng.randint(0, 7)
+        exact = True
+    w = [None, 'array', 'list', 'func', 'float32', 'intarr', None][(idx // 2) % 7]
+    if w:
+        o['window'] = w
+    if name in BANDED:
+        o['psm'] = bool(idx % 2)
+        o['sbf'] = bool((idx // 2) % 2)
+    if (idx // 3) % 4 == 3 and name not in ('SpectralAnalyzer.psd', 'SpectralAnalyzer.cpsd', 'get_spectra/welch', 'CoherenceAnalyzer.frequencies/welch'):
+        m['n'] = rng.randint(max(2, N // 2), N - 1)            # shorter than NFFT: one zero-padded window
+    fs = float(rng.choice(EXACT_RATES))
+    m['Fs'] = f2x(fs)
+    if analyzer:
+        m['unit'] = ['s', 'ms', 'us'][idx % 3]
+        if name in ('SparseCoherenceAnalyzer.frequencies', 'SeedCoherenceAnalyzer.frequencies', 'CoherenceAnalyzer.frequencies/welch') and (idx // 2) % 2:
+            # explicit Fs in the method dict; the series itself runs at another rate
+            o['fs_dict'] = True
+            if idx % 4 == 1:
+                u, dt, rate = rng.choice([iv for iv in INTERVALS if iv[0] == m['unit'] and float(iv[2]) != fs])
+                o['series_interval'] = dt
+            else:
+                o['series_fs'] = f2x(fs * rng.choice([3.0, 0.25, 7.0]))
+        elif (idx // 3) % 2:
+            cands = [iv for iv in INTERVALS if iv[0] == m['unit'] and float(iv[2]) in EXACT_RATES + [10.0, 4000.0, 500000.0]]
+            if cands:
+                u, dt, rate = rng.choice(cands)
+                m['interval'] = dt
+                m['Fs'] = f2x(float(rate))
+                fs = float(rate)
+    m['opts'] = o
+    if name in BANDED:
+        bm = (idx // 2) % 6
+        nf = N // 2
+        k1 = rng.randint(0, nf - 1)
+        k2 = rng.randint(k1, nf)
+        g = lambda k: (k * (1.0 / N)) * fs                   # the float formula of utils.get_freqs
+        if bm == 0 and idx % 4 == 0:
+            m['lb'], m['ub'] = f2x(0.0), f2x(0.0)             # the DC bin alone (an explicit 0.0 is a value, not "unset")
+        elif bm == 0:
+            m['lb'] = f2x(0.0)                                # explicit 0.0, ub=None
+        elif bm == 1 and exact:
+            d1, d2 = rng.choice([-1, 0, 1]), rng.choice([-1, 0, 1])
+            lbv = g(k1) if d1 == 0 else float(np.nextafter(g(k1), d1 * np.inf))
+            ubv = g(k2) if d2 == 0 else float(np.nextafter(g(k2), d2 * np.inf))
+            m['lb'], m['ub'] = f2x(max(lbv, 0.0)), f2x(ubv)
+            m['band_mode'] = 'ulp/%+d/%+d' % (d1, d2)
+        elif bm == 2:
+            m['lb'] = f2x(g(k1) * 0.999 if k1 else 0.0)
+            m['ub'] = f2x(fs / 2 * rng.choice([1.0, 1.5, 4.0]) + (0.0 if exact else fs / (8 * N)))   # at / above Nyquist
+        elif bm == 3 and exact:
+            m['lb'], m['ub'] = f2x(g(k1)), f2x(g(k2))        # both edges exactly on a bin
+        elif bm == 4:
+            m['ub'] = f2x((k2 + 0.5) * fs / N)                # lb left at its default 0
+        else:
+            m['lb'] = f2x((k1 + 0.5) * fs / N)
+    return m
+
+ESTIMATORS = ('periodogram', 'periodogram_csd', 'multi_taper_psd', 'multi_taper_csd')
+SKIPPED = {}
+
+
+def keep_ok(c, fam):
+    """a call of the new families that raises returns no frequency vector: nothing for C05 to judge (counted in the stats)"""
+    if isinstance(c._res, str):
+        SKIPPED[fam] = SKIPPED.get(fam, 0) + 1
+        return False
+    return True
+
+
+def option_cases(rng, tier, seed, rep):
+    out = []
+    SKIPPED.clear()
+    # (6a) a precomputed transform Sk= of any length, with and without N= / NFFT=, 1-d / 2-d / 3-d, directly, through
+    #      get_spectra and through CoherenceAnalyzer (series in s / ms / us)
+    for i in range(72 * rep):
+        c = make_case(gen_sk(rng, tier, i))
+        if keep_ok(c, 'Sk'):
+            out.append(c)
+    # (6b) every site x every representation of the DATA (integer recordings, float32, complex64, Fortran order, strided,
+    #      read-only, big-endian, an extra leading dimension)
+    for r in range(max(1, rep // 3)):
+        for j, name in enumerate(CALLS):
+            if name == 'get_freqs':
+                continue
+            for k, dv in enumerate(DVARS):
+                if dv == '3d' and name.split('/')[0] not in ESTIMATORS:
+                    continue
+                if dv == 'complex64' and not (name in COMPLEX_CALLS or name.split('/')[0] in ESTIMATORS and name.endswith('twosided')):
+                    continue
+
+                def mk():
+                    m = gen_meta(rng, name, tier, j + k + r)
+                    m['dvar'] = dv
+                    if dv == 'complex64':
+                        m['complex'] = True
+                    if dv in ('uint8', 'complex64') or m.get('centroid'):
+                        for q in ('k0', 'centroid'):
+                            m.pop(q, None)       # the offset of unsigned data puts the largest value on the DC bin
+                    m.pop('retarget', None)
+                    if name.split('/')[0] in ('multi_taper_psd', 'multi_taper_csd'):
+                        # the other optional arguments of the multitaper estimators, in combination
+                        m.update(adaptive=bool(k % 2), low_bias=bool((k // 2) % 2), jackknife=(k % 3 == 0))
+                        if m['adaptive']:
+                            m['NW'] = 3                      # enough tapers for the adaptive weighting to be used at all
+                    return m
+                c = make_case(mk())
+                if keep_ok(c, 'dtype'):
+                    out.append(c)
+    # (6c) process histories around every call: the call, then other rates / lengths through the same entry point and
+    #      get_freqs, every result handed out (frequency vectors too) overwritten in place, then the call again
+    for r in range(rep):
+        for j, name in enumerate(CALLS):
+            c = make_case(gen_sandwich(rng, name, tier, j + r))
+            if keep_ok(c, 'recall'):
+                out.append(c)
+    # (6d) the optional arguments of the Welch / cache sites and bands at +-1 ulp of a bin
+    for name in LATTICE_SITES:
+        for i in range(30 * rep):
+            c = make_case(gen_lattice(rng, name, tier, i))
+            if keep_ok(c, 'options'):
+                out.append(c)
+    for i in range(18 * rep):                      # filtered_fourier: band edges on a bin and 1 ulp to either side
+        N = [8, 16, 32][i % 3]
+        fs = float(rng.choice(EXACT_RATES))
+        k1 = rng.randint(1, N // 2 - 1)
+        k2 = rng.randint(k1, N // 2)
+        d1, d2 = [(-1, 1), (1, -1), (0, 0), (1, 1), (-1, -1), (0, 1)][(i // 3) % 6]
+        e = lambda k, d: (k * (1.0 / N)) * fs if d == 0 else float(np.nextafter((k * (1.0 / N)) * fs, d * np.inf))
+        m = {'call': 'FilterAnalyzer.filtered_fourier', 'dseed': 0, 'n': N, 'N': N, 'Fs': f2x(fs), 'unit': ['s', 'ms', 'us'][i % 3],
+             'lb': f2x(e(k1, d1)), 'ub': f2x(e(k2, d2)), 'opts': {}}
+        c = make_case(m)
+        if keep_ok(c, 'options'):
+            out.append(c)
+    return out
+
+
 TWO_SIDED = [c for c in CALLS if CALLS[c][1] in ('two', 'shift')]
 ARANGE_LENGTHS = [49, 61, 98, 103, 121, 122]        # lengths at which a float-step arange(0, Fs, Fs/N) emits N+1 points
 ARANGE_RATES = [1.0, 2 * math.pi, 1000.0]
@@ -1125,6 +1553,7 @@ def cases(rng, tier, seed):
                 for dc in ((True, False) if (name in BANDED or CALLS[name][1] == 'keep') else (True,)):
                     i += 1
                     out.append(draw(lambda: gen_history(rng, name, tier, ev, o, i + r, dc)))
+    out += option_cases(rng, tier, seed, rep)
     # several live analyzers: every ordered pair of classes x how they get their method dict x order of events
     # (thorough: also triples)
     for r in range(rep):
@@ -1205,7 +1634,7 @@ def oracle(rng, tier, seed, focus, cases):
     ordered = [v[1] for k, v in sorted(best.items())]
     seen = {id(f) for f in ordered}
     ordered += [f for f in fails if id(f) not in seen]
-    stats = {'calls_judged': n, 'distinct_failure_keys': len(best),
+    stats = {'calls_judged': n, 'distinct_failure_keys': len(best), 'calls_raising_not_judged': dict(SKIPPED),
              'calls_failing': {k: '%d/%d' % (v[1], v[0]) for k, v in sorted(per_call.items()) if v[1]}}
     return ordered, stats
 
